@@ -237,22 +237,34 @@ func recordVar(d Desc, rng *rand.Rand, emit func(setEvent), only map[int]bool, i
 	init := setEvent{Ev: "init", ID: *id, Var: name}
 	observe(&init)
 	emit(init)
+	type pair struct {
+		v     Val
+		scope string
+	}
+	var pairs []pair
 	for _, v := range genValues(d, rng) {
-		for _, scope := range []string{"session", "global"} {
-			*id++
-			if len(only) > 0 && !only[*id] {
-				continue
-			}
-			q := fmt.Sprintf("SET %s %s = %s", strings.ToUpper(scope), name, v.SQL())
-			r := a.exec(q)
-			tv := decorate(v)
-			ev := setEvent{Ev: "set", ID: *id, Var: name, Scope: scope, Val: &tv, SQL: q, Out: "ok"}
-			if !r.ok {
-				ev.Out, ev.Err, ev.Msg = "err", errClass(r.msg), r.msg
-			}
-			observe(&ev)
-			emit(ev)
+		pairs = append(pairs, pair{v, "session"}, pair{v, "global"})
+	}
+	// interleave so that the session and the global value differ most of the time
+	rng.Shuffle(len(pairs), func(i, j int) { pairs[i], pairs[j] = pairs[j], pairs[i] })
+	for _, p := range pairs {
+		v, scope := p.v, p.scope
+		*id++
+		if len(only) > 0 && !only[*id] {
+			continue
 		}
+		q := fmt.Sprintf("SET %s %s = %s", strings.ToUpper(scope), name, v.SQL())
+		r := a.exec(q)
+		tv := decorate(v)
+		ev := setEvent{Ev: "set", ID: *id, Var: name, Scope: scope, Val: &tv, SQL: q, Out: "ok"}
+		if !r.ok {
+			ev.Out, ev.Err, ev.Msg = "err", errClass(r.msg), r.msg
+			if ev.Err == "panic" {
+				ev.Out = "panic" // never an acceptable outcome
+			}
+		}
+		observe(&ev)
+		emit(ev)
 	}
 }
 
@@ -262,7 +274,7 @@ func main() {
 	in := flag.String("in", "", "input ndjson (replay: TLC behaviours)")
 	seed := flag.Int64("seed", 1, "")
 	frac := flag.Float64("sample", 1.0, "record: fraction of the variables (seeded)")
-	vars := flag.String("vars", "", "record: comma separated variable names (overrides -sample)")
+	vars := flag.String("vars", "", "record: comma separated variable names that are always included (use -sample 0 for these only)")
 	only := flag.String("only", "", "record: comma separated event ids to execute (the others are skipped)")
 	shard := flag.String("shard", "", "record: i/n")
 	flag.Parse()
@@ -313,10 +325,7 @@ func main() {
 		for i, d := range descs {
 			// one generator per variable so that sampling / sharding never changes a variable's values
 			vr := rand.New(rand.NewSource(*seed*1000003 + int64(i)))
-			pick := rng.Float64() < *frac
-			if len(want) > 0 {
-				pick = want[d.Name]
-			}
+			pick := rng.Float64() < *frac || want[d.Name]
 			id = i * 1000
 			if !pick || i%shN != shI || d.Volatile {
 				continue
